@@ -50,4 +50,34 @@ theorem split_forwards_settings : Gen.splitForwardsSettings = true := by
 theorem jump_distances_in_simulation_cell : Gen.jumpDistancesInSimulationCell = true := by
   rfl
 
+
+/-! ### jump graph: activation energy of an edge and the energy limits -/
+
+theorem effRate_eq (n o t l k q lo hi : ℚ) : Gen.effRate n o t l k q lo hi = n / (o * t) := by
+  unfold Gen.effRate; ring
+
+/-- the stored edge attribute is −ln(rate / ν) · k_B T / e, i.e. in electron-volt -/
+theorem edgeEnergy_eq (n o t l k q lo hi : ℚ) : Gen.edgeEnergy n o t l k q lo hi = -(l * k) / q := by
+  unfold Gen.edgeEnergy; ring
+
+/-- an edge is kept exactly when the STORED energy (the value in eV) lies within the limits -/
+theorem edgeKept_iff (n o t l k q lo hi : ℚ) :
+    Gen.edgeKept n o t l k q lo hi = true ↔
+      lo ≤ Gen.edgeEnergy n o t l k q lo hi ∧ Gen.edgeEnergy n o t l k q lo hi ≤ hi := by
+  unfold Gen.edgeKept
+  rw [decide_eq_true_eq, edgeEnergy_eq]
+  constructor
+  · rintro ⟨h1, h2⟩
+    exact ⟨by have : ((-l * k) / q) = -(l * k) / q := by ring
+              linarith [h1, this.le, this.ge], by have : ((-l * k) / q) = -(l * k) / q := by ring
+                                                  linarith [h2, this.le, this.ge]⟩
+  · rintro ⟨h1, h2⟩
+    exact ⟨by have : ((-l * k) / q) = -(l * k) / q := by ring
+              linarith [h1, this.le, this.ge], by have : ((-l * k) / q) = -(l * k) / q := by ring
+                                                  linarith [h2, this.le, this.ge]⟩
+
+theorem limits_default_to_unbounded : Gen.limitsDefaultToUnbounded = true := rfl
+
+theorem graph_inputs_from_this_analysis : Gen.graphInputsFromThisAnalysis = true := rfl
+
 end G.C05Gen
